@@ -10,15 +10,26 @@ import (
 	"github.com/openfga/openfga/pkg/storage/memory"
 )
 
-func main() {
+func try(name string, rr *openfgav1.RelationReference) {
+	defer func() {
+		if p := recover(); p != nil {
+			fmt.Println(name, "=> PANIC:", p)
+		}
+	}()
 	s := server.MustNewServerWithOpts(server.WithDatastore(memory.New()))
 	ctx := context.Background()
 	cs, _ := s.CreateStore(ctx, &openfgav1.CreateStoreRequest{Name: "dbg-store"})
-	for _, tok := range []string{"AAAA", "eyJwayI6IkxBVEVTVF9OU0NPTkZJR19hdXRoMHN0b3JlIiwic2siOiIxem1qbXF3MWZLZExTcUoyN01MdTdqTjh0cWgifQ==", "abc", "MDFIVk1NQkNNR1pOVDNTRUQ0WjE3RUNYQ0E="} {
-		_, e1 := s.ListStores(ctx, &openfgav1.ListStoresRequest{ContinuationToken: tok})
-		_, e2 := s.ReadChanges(ctx, &openfgav1.ReadChangesRequest{StoreId: cs.GetId(), ContinuationToken: tok})
-		_, e3 := s.ReadAuthorizationModels(ctx, &openfgav1.ReadAuthorizationModelsRequest{StoreId: cs.GetId(), ContinuationToken: tok})
-		_, e4 := s.Read(ctx, &openfgav1.ReadRequest{StoreId: cs.GetId(), ContinuationToken: tok})
-		fmt.Printf("token %.20q:\n  ListStores: %v\n  ReadChanges: %v\n  ReadAuthorizationModels: %v\n  Read: %v\n", tok, e1, e2, e3, e4)
-	}
+	this := &openfgav1.Userset{Userset: &openfgav1.Userset_This{This: &openfgav1.DirectUserset{}}}
+	tds := []*openfgav1.TypeDefinition{{Type: "user"}, {Type: "doc",
+		Relations: map[string]*openfgav1.Userset{"viewer": this},
+		Metadata:  &openfgav1.Metadata{Relations: map[string]*openfgav1.RelationMetadata{"viewer": {DirectlyRelatedUserTypes: []*openfgav1.RelationReference{rr}}}}}}
+	_, err := s.WriteAuthorizationModel(ctx, &openfgav1.WriteAuthorizationModelRequest{StoreId: cs.GetId(), TypeDefinitions: tds, SchemaVersion: "1.1"})
+	fmt.Println(name, "=>", err)
+}
+
+func main() {
+	try("relation oneof set to empty string", &openfgav1.RelationReference{Type: "user", RelationOrWildcard: &openfgav1.RelationReference_Relation{Relation: ""}})
+	try("wildcard oneof with nil payload", &openfgav1.RelationReference{Type: "user", RelationOrWildcard: &openfgav1.RelationReference_Wildcard{}})
+	try("plain [user]", &openfgav1.RelationReference{Type: "user"})
+	try("[user:*]", &openfgav1.RelationReference{Type: "user", RelationOrWildcard: &openfgav1.RelationReference_Wildcard{Wildcard: &openfgav1.Wildcard{}}})
 }
